@@ -66,3 +66,73 @@ Theorem restore_guard_needed : exists origs news nd c,
 Proof.
   exists [mkO 7 1 true], [mkN 7 2 false], (mkN 7 2 false), [1]. vm_compute. repeat split.
 Qed.
+
+(* ---------------------------------------------------------------------------------------------- *)
+(* most_common picks an element of the list *)
+Lemma most_common_from_in : forall l all best, In (most_common_from best l all) (best :: l).
+Proof.
+  induction l as [| x tl IH]; intros all best; cbn [most_common_from].
+  - left. reflexivity.
+  - destruct (IH all (if count best all <? count x all then x else best)) as [H | H].
+    + destruct (count best all <? count x all); [right; left | left]; exact H.
+    + right. right. exact H.
+Qed.
+
+Lemma most_common_in : forall l, l <> [] -> In (most_common l) l.
+Proof.
+  intros [| x tl] H; [congruence |]. unfold most_common. apply most_common_from_in.
+Qed.
+
+(* T11.7 for the spelling actually written *)
+Theorem restore_pick_sound : forall origs news nd c,
+  restore_node origs news nd = Some c ->
+  n_lit nd = true /\
+  exists o, In o origs /\ o_text o = most_common c /\ o_val o = n_val nd /\ o_lit o = true.
+Proof.
+  intros origs news nd c H. destruct (restore_node_sound _ _ _ _ H) as [L Hc]. split; [exact L |].
+  apply Hc, most_common_in. intros ->. unfold restore_node in H.
+  destruct (cands origs (n_val nd)); [discriminate |].
+  destruct (subset _ _); [discriminate |]. destruct (mem _ _); [discriminate |].
+  destruct (n_lit nd); discriminate.
+Qed.
+
+(* T11.11 f-strings: the spelling written is a valid original spelling with the node's unparse key, and the
+   overwritten spelling is valid Python *)
+Theorem frestore_node_sound : forall origs nd r,
+  frestore_node origs nd = Some r ->
+  fn_valid nd = true /\
+  exists o, In o origs /\ fo_text o = r /\ fo_key o = fn_key nd /\ fo_valid o = true.
+Proof.
+  intros origs nd r H. unfold frestore_node in H.
+  destruct (fcands origs (fn_key nd)) as [| t0 tl] eqn:E; [discriminate |].
+  destruct (fn_valid nd) eqn:V; [| discriminate]. cbn [andb] in H.
+  destruct (negb (mem (fn_text nd) (t0 :: tl))); [| discriminate]. inversion H; subst r.
+  split; [reflexivity |].
+  assert (Hin : In (most_common (t0 :: tl)) (fcands origs (fn_key nd))).
+  { rewrite E. apply most_common_in. discriminate. }
+  unfold fcands in Hin. apply in_map_iff in Hin. destruct Hin as [o [Ht Ho]].
+  apply filter_In in Ho. destruct Ho as [Hin Hc]. apply andb_true_iff in Hc. destruct Hc as [Hk Hv].
+  exists o. repeat split; try assumption. apply Nat.eqb_eq. exact Hk.
+Qed.
+
+(* under f_guard (every overwritten spelling is itself an f-string with the node's key), old and new spelling
+   have the same unparse key when parsed alone, for any reading [ukey] the booleans are computed from *)
+Section UKey.
+Variable ukey : nat -> option nat.
+Theorem frestore_same_key : forall origs news nd r,
+  (forall o, In o origs -> fo_valid o = true -> ukey (fo_text o) = Some (fo_key o)) ->
+  (forall n, In n news -> fn_self n = true -> ukey (fn_text n) = Some (fn_key n)) ->
+  f_guard origs news = true -> In nd news ->
+  frestore_node origs nd = Some r -> ukey r = ukey (fn_text nd).
+Proof.
+  intros origs news nd r HO HN G Hin H.
+  destruct (frestore_node_sound _ _ _ H) as [_ [o [Ho [Ht [Hk Hv]]]]].
+  unfold f_guard in G. rewrite forallb_forall in G. specialize (G nd Hin). rewrite H in G.
+  rewrite (HN nd Hin G), <- Ht, (HO o Ho Hv), Hk. reflexivity.
+Qed.
+End UKey.
+
+(* R11.12: validity alone does not make the overwritten spelling an f-string of that key
+   (a spelling that is valid Python on its own but is not the f-string, e.g. a bare `{w}` spec) *)
+Theorem frestore_guard_refuted : exists origs news, f_guard origs news = false.
+Proof. exists [mkFO 5 1 true], [mkFN 5 2 true false]. reflexivity. Qed.
